@@ -6,8 +6,8 @@ JSON_TB = ["encoding/json's lexer (bytes → tokens, UTF-8 repair, escapes): the
 PROPS = {
  'C05': dict(
     group='codec', only=['keyid'], ops=['keyid.rt', 'keyid.dec'],
-    modules=['Ysshra.Props.C05', 'Ysshra.Bridge.KeyId', 'Ysshra.Bridge.SnapKeyIdAux'],
-    theorem_files=['Props/C05.lean', 'Bridge/KeyId.lean', 'Bridge/SnapKeyIdAux.lean'],
+    modules=['Ysshra.Props.C05', 'Ysshra.Bridge.KeyId', 'Ysshra.Bridge.SnapKeyId'],
+    theorem_files=['Props/C05.lean', 'Bridge/KeyId.lean', 'Bridge/SnapKeyId.lean'],
     anchors=['keyid/'],
     n=dict(quick=3000, thorough=150000),
     trivial=lambda c: (c['op'] == 'keyid.dec' and c['args'][0] == '!') ,
@@ -20,8 +20,8 @@ PROPS = {
  ),
  'C19': dict(
     group='codec', only=['certtype'], ops=['certtype'],
-    modules=['Ysshra.Props.C19', 'Ysshra.Bridge.CertType', 'Ysshra.Bridge.KeyId', 'Ysshra.Bridge.SnapKeyIdAux'],
-    theorem_files=['Props/C19.lean', 'Bridge/CertType.lean', 'Bridge/SnapKeyIdAux.lean'],
+    modules=['Ysshra.Props.C19', 'Ysshra.Bridge.CertType', 'Ysshra.Bridge.KeyId'],
+    theorem_files=['Props/C19.lean', 'Bridge/CertType.lean'],
     anchors=['sshutils/cert/', 'keyid/'],
     n=dict(quick=2000, thorough=40000),
     trivial=lambda c: False,
@@ -61,8 +61,8 @@ PROPS = {
  ),
  'C06': dict(
     group='attest', only=['attest'], ops=['attest'],
-    modules=['Ysshra.Props.C06', 'Ysshra.Bridge.Attest', 'Ysshra.Bridge.SnapParse'],
-    theorem_files=['Props/C06.lean', 'Bridge/Attest.lean', 'Bridge/SnapParse.lean'],
+    modules=['Ysshra.Props.C06', 'Ysshra.Bridge.Attest', 'Ysshra.Bridge.SnapAttest'],
+    theorem_files=['Props/C06.lean', 'Bridge/Attest.lean', 'Bridge/SnapAttest.lean'],
     anchors=['attestation/yubiattest/signature.go', 'attestation/yubiattest/attest.go'],
     n=dict(quick=1200, thorough=12000),
     timeout=dict(quick=600, thorough=3000),
@@ -170,8 +170,8 @@ PROPS = {
  'C09': dict(
     group='shim', only=['hist'], ops=['hist'],
     klass=lambda c: 'hist:noup' + c['args'][0] + ':ops' + str(min(25, 5 * (c['args'][3].count(';') // 5))) + ('+faults' if '!' in c['args'][3] else ''),
-    modules=['Ysshra.Props.C09', 'Ysshra.Bridge.SnapShim', 'Ysshra.Bridge.SnapKeyIdAux'],
-    theorem_files=['Props/C09.lean', 'Bridge/SnapShim.lean', 'Bridge/SnapKeyIdAux.lean'],
+    modules=['Ysshra.Props.C09', 'Ysshra.Bridge.SnapShim'],
+    theorem_files=['Props/C09.lean', 'Bridge/SnapShim.lean'],
     anchors=['agent/shimagent/', 'sshutils/cert/validation.go'],
     n=dict(quick=500, thorough=20000),
     timeout=dict(quick=900, thorough=3400),
@@ -183,8 +183,8 @@ PROPS = {
  'C10': dict(
     group='shim', only=['hist', 'weird'], ops=['hist'],
     klass=lambda c: 'hist:noup' + c['args'][0] + ':ops' + str(min(25, 5 * (c['args'][3].count(';') // 5))) + ('+faults' if '!' in c['args'][3] else ''),
-    modules=['Ysshra.Props.C10', 'Ysshra.Bridge.SnapShim', 'Ysshra.Bridge.SnapYubi'],
-    theorem_files=['Props/C10.lean', 'Bridge/SnapShim.lean', 'Bridge/SnapYubi.lean'],
+    modules=['Ysshra.Props.C10', 'Ysshra.Bridge.SnapShim'],
+    theorem_files=['Props/C10.lean', 'Bridge/SnapShim.lean'],
     anchors=['agent/shimagent/', 'sshutils/cert/validation.go'],
     n=dict(quick=500, thorough=20000),
     timeout=dict(quick=900, thorough=3400),
@@ -209,8 +209,8 @@ PROPS = {
  'C02': dict(
     group='gensign', only=['gs'], ops=['gs'],
     klass=lambda c: 'gs:runs' + str(c['args'][1].count(';') + 1) + ':' + ('ok' if 'res=ok' in ((c['model'] or [''])[0]) else 'noSuccess'),
-    modules=['Ysshra.Props.C02', 'Ysshra.Bridge.Gensign', 'Ysshra.Bridge.SnapGensignAux', 'Ysshra.Bridge.KeyId', 'Ysshra.Bridge.SnapKeyIdAux'],
-    theorem_files=['Props/C02.lean', 'Bridge/Gensign.lean', 'Bridge/SnapGensignAux.lean', 'Bridge/KeyId.lean', 'Bridge/SnapKeyIdAux.lean'],
+    modules=['Ysshra.Props.C02', 'Ysshra.Bridge.Gensign', 'Ysshra.Bridge.SnapGensignAux', 'Ysshra.Bridge.KeyId', 'Ysshra.Bridge.SnapKeyId'],
+    theorem_files=['Props/C02.lean', 'Bridge/Gensign.lean', 'Bridge/SnapGensignAux.lean', 'Bridge/KeyId.lean', 'Bridge/SnapKeyId.lean'],
     anchors=['gensign/', 'agent/ssh/', 'csr/', 'crypki/common.go'],
     n=dict(quick=600, thorough=30000),
     timeout=dict(quick=900, thorough=3400),
